@@ -17,7 +17,7 @@ EVIDENCE = {
                   "utils.math.adjugate/hat_matrix/is_multiple", "Conic.intersect(Conic) (concrete pencils, tier attempt)"],
     "bounds": "from_lines: one line free reals x one line from a lattice family covering every sign pattern class (zero coordinates, opposite signs); additionally every pair of lines / planes "
               "with coordinates in {-2..2} is enumerated concretely (sign-pattern quantifier of the property; seeded subset in quick); is_degenerate: symmetric 3x3 with free reals",
-    "outside": "two symbolic lines at once (path explosion of the two pivot searches), conic x conic intersection (roots + nested complex radicals: tier 'attempt'), 'every common point is among "
+    "outside": "3-D collections mixing reducible and irreducible members (one supplementary concrete case), two symbolic lines at once (path explosion of the two pivot searches), conic x conic intersection (roots + nested complex radicals: tier 'attempt'), 'every common point is among "
                "the returned ones' (a forall-exists statement), rounding",
     "assumptions": ["np.linalg.eigvalsh: real eigenvalues (stub); the normalisation factor is a positive unknown", "ProjectiveTensor.__eq__/is_multiple: lemma proved in C20"],
 }
@@ -167,6 +167,46 @@ def custom_conic_conic(tier, seed):
     return res
 
 
+def custom_mixed_collection(tier, seed):
+    """supplementary concrete case: a 3-D QuadricCollection holding a reducible member (pair of planes) and a degenerate but irreducible one (cone):
+    .components either raises NotReducible or every reported pair of planes reproduces the quadratic form of its member"""
+    from geometer import Plane, Cone, Quadric, QuadricCollection
+    from geometer.exceptions import NotReducible
+    t0 = time.time()
+    res = {"paths": 1, "forks": 0, "obligations": 0, "ob_total": 0, "violations": [], "inconclusive": [], "samples": [], "by_step": {"evaluated": 0},
+           "outcomes": {}, "reach": {}, "validated": 0, "solver_time": 0.0}
+    for order in ((0, 1), (1, 0)):
+        members = [Quadric.from_planes(Plane(1, 2, 3, 4), Plane(4, 3, 2, 1)), Cone()]
+        q = QuadricCollection([members[i] for i in order])
+        res["ob_total"] += 1
+        res["obligations"] += 1
+        res["by_step"]["evaluated"] += 1
+        bad = None
+        try:
+            comp = q.components
+        except NotReducible:
+            comp = None
+        except Exception as e:
+            bad = f"mixed-collection{order}:{type(e).__name__}"
+            comp = None
+        if comp is not None:
+            rnd = np.random.default_rng(0)
+            xs = rnd.integers(-3, 4, size=(8, 4)).astype(float)
+            for k in range(2):
+                a, b = np.asarray(comp[0].array[k]), np.asarray(comp[1].array[k])
+                m = np.asarray(q.array[k])
+                quad = np.einsum("ni,ij,nj->n", xs, m, xs)
+                prod = (xs @ a) * (xs @ b)
+                sel = np.abs(quad) > 1e-9
+                ratio = prod[sel] / quad[sel]
+                if not (sel.any() and np.allclose(ratio, ratio[0]) and abs(ratio[0]) > 1e-12 and np.allclose(prod[~sel], 0, atol=1e-9)):
+                    bad = f"mixed-collection{order}:member[{k}]-reported-reducible-but-is-not-the-product-of-the-planes"
+        if bad:
+            res["violations"].append({"case": "mixed_collection", "obligation": bad, "env": {}, "replay": {"failed": [bad]}})
+    res["wall"] = time.time() - t0
+    return res
+
+
 def cases(tier, seed):
     Q, T = ("quick", "thorough"), ("thorough",)
     cs = []
@@ -178,4 +218,5 @@ def cases(tier, seed):
     add("is_degenerate", case_is_degenerate, tiers=Q)
     cs.append(Case("sign_patterns", custom_sign_patterns, kind="custom"))
     cs.append(Case("conic_conic_lattice", custom_conic_conic, kind="custom"))
+    cs.append(Case("mixed_collection", custom_mixed_collection, kind="custom"))
     return cs
